@@ -102,6 +102,35 @@ Theorem C15_filename_extraction_refuted :
 Proof. exact filename_extraction_refuted. Qed.
 Print Assumptions C15_filename_extraction_refuted.
 
+(* the ways in which the code's line reader departs from the directive reader,
+   each by a concrete line (model-level observations; the first two are inside
+   the property's quantifier - quoted names -, the others are malformed or
+   non-INCLUDE lines and outside it):
+   - a quoted name with a blank: the first word is taken (another file's
+     content, or IOError when there is no such file);
+   - a quoted name with a hash sign: cut at the hash sign;
+   - INCLUDE without a name: IndexError;
+   - a keyword that merely starts with the letters include is expanded;
+   - a name made of quote characters inside the other kind of quotes loses them. *)
+Theorem C15_line_reader_departures :
+  (load_includes wit_fs (Str "/r") (Str "INCLUDE ""has space.map""") (Some (Str "/r/root.map")) = Ok (Str "NAME 'wrong'") /\
+   expanded isspace (text_of wit_fs) (Str "/r") (Some (Str "/r/root.map")) (Str "INCLUDE ""has space.map""") = Ok (Str "NAME 'x'")) /\
+  load_includes [([Str "r"; Str "has space.map"], Str "NAME 'x'")] (Str "/r") (Str "INCLUDE ""has space.map""")
+                (Some (Str "/r/root.map")) = Err PyIOError /\
+  (load_includes [([Str "r"; Str "a#b.map"], Str "NAME 'x'")] (Str "/r") (Str "INCLUDE ""a#b.map""") None = Err PyIOError /\
+   expanded isspace (text_of [([Str "r"; Str "a#b.map"], Str "NAME 'x'")]) (Str "/r") None (Str "INCLUDE ""a#b.map""") = Ok (Str "NAME 'x'")) /\
+  (load_includes wit_fs (Str "/r") (Str "INCLUDE") None = Err PyIndexError /\
+   expanded isspace (text_of wit_fs) (Str "/r") None (Str "INCLUDE") = Ok (Str "INCLUDE")) /\
+  (load_includes wit_fs (Str "/r") (Str "INCLUDES x.map") None = Ok (Str "NAME 'y'") /\
+   expanded isspace (text_of wit_fs) (Str "/r") None (Str "INCLUDES x.map") = Ok (Str "INCLUDES x.map")) /\
+  (get_include_filename (Str "INCLUDE '""a.map""'") = Ok (Str "a.map") /\
+   directive isspace (Str "INCLUDE '""a.map""'") = Some (Str """a.map""")).
+Proof.
+  exact (conj refute_quoted_blank (conj refute_quoted_blank_missing (conj refute_quoted_hash
+          (conj refute_bare_include (conj refute_prefix_keyword refute_nested_quotes))))).
+Qed.
+Print Assumptions C15_line_reader_departures.
+
 (* guarded: blanks b1, keyword word w, blanks b2, the name written bare, in
    double or in single quotes, blanks b3, nothing or a comment: the code
    extracts the name, provided the name has no white space, no hash sign and
